@@ -442,6 +442,11 @@ func TestRun(t *testing.T) {
 				if i >= len(cases) {
 					return
 				}
+				if rec.NViolations() > 12 {
+					// a reply that never shows up costs a full watchdog per case: enough witnesses, end the run with them
+					rec.Count("cases_skipped_after_violations", 1)
+					continue
+				}
 				tc := time.Now()
 				runCase(rec, cases[i], r)
 				c := cases[i]
@@ -456,7 +461,9 @@ func TestRun(t *testing.T) {
 		}(w)
 	}
 	wg.Wait()
-	responseDuplicates(rec, vr.Scale(100, 3000))
+	if rec.NViolations() <= 12 {
+		responseDuplicates(rec, vr.Scale(100, 3000))
+	}
 	rec.Assume("t0 (the instant the reply is cached) lies in [time before the first copy was injected, time after the last reply was observed]; sweeps are placed 1 s outside that bracket +/- 247 s")
 	rec.Assume("a non-confirmable request for which no reply was produced is outside the statement (its duplicates may run the handler again)")
 }
